@@ -87,3 +87,103 @@ V('c17-twin-gate-nested', 'C17', 'C17.GATE', CORE,
 V('c17-twin-stop-reordered', 'C17', 'C17.LISTENER', '_services/browser.py',
   "        if self._next_run is not None:\n            self._next_run.cancel()\n            self._next_run = None\n        self._next_scheduled_for_alias.clear()\n        self._query_heap.clear()",
   "        self._query_heap.clear()\n        self._next_scheduled_for_alias.clear()\n        timer = self._next_run\n        if timer is not None:\n            self._next_run.cancel()\n            self._next_run = None", expect='silent')
+
+RMF = '_handlers/record_manager.py'
+# ---------------------------------------------------------------- C06
+V('c06-add-before-notify', 'C06', 'C06.ORDER', RMF,
+  "        if updates:\n            self.async_updates(now, updates)\n        # The cache adds must be processed AFTER we trigger",
+  "        # The cache adds must be processed AFTER we trigger", names=['effect sequence'],
+  more=[(RMF, "        new = False\n        if other_adds or address_adds:\n            new = cache.async_add_records(address_adds)\n            if cache.async_add_records(other_adds):\n                new = True\n",
+         "        new = False\n        if other_adds or address_adds:\n            new = cache.async_add_records(address_adds)\n            if cache.async_add_records(other_adds):\n                new = True\n        if updates:\n            self.async_updates(now, updates)\n")])
+V('c06-remove-before-add', 'C06', 'C06.ORDER', RMF,
+  "        new = False\n        if other_adds or address_adds:",
+  "        if removes:\n            cache.async_remove_records(removes)\n            removes = set()\n        new = False\n        if other_adds or address_adds:")
+V('c06-complete-before-remove', 'C06', 'C06.ORDER', RMF,
+  "        if removes:\n            cache.async_remove_records(removes)\n        if updates:\n            self.async_updates_complete(new)",
+  "        if updates:\n            self.async_updates_complete(new)\n        if removes:\n            cache.async_remove_records(removes)")
+V('c06-notify-in-loop', 'C06', 'C06.ORDER', RMF,
+  "                updates.append(RecordUpdate(record, maybe_entry))\n            # This is likely a goodbye",
+  "                updates.append(RecordUpdate(record, maybe_entry))\n                self.async_updates(now, updates)\n            # This is likely a goodbye")
+V('c06-add-without-update', 'C06', 'C06.ORDER', RMF,
+  "                    else:\n                        other_adds.append(record)\n                updates.append(RecordUpdate(record, maybe_entry))",
+  "                    else:\n                        other_adds.append(record)\n                if maybe_entry is None or record.ttl != maybe_entry.ttl:\n                    updates.append(RecordUpdate(record, maybe_entry))")
+V('c06-previous-none', 'C06', 'C06.ORDER', RMF,
+  "                updates.append(RecordUpdate(record, maybe_entry))\n            # This is likely a goodbye",
+  "                updates.append(RecordUpdate(record, None))\n            # This is likely a goodbye")
+V('c06-addr-after-other', 'C06', 'C06.ORDER', RMF,
+  "            new = cache.async_add_records(address_adds)\n            if cache.async_add_records(other_adds):",
+  "            new = cache.async_add_records(other_adds)\n            if cache.async_add_records(address_adds):")
+V('c06-complete-only-if-new', 'C06', 'C06.ORDER', RMF,
+  "        if updates:\n            self.async_updates_complete(new)", "        if updates and new:\n            self.async_updates_complete(new)")
+V('c06-iterate-live-set', 'C06', 'C06.SNAPSHOT', RMF,
+  "        for listener in self.listeners.copy():\n            listener.async_update_records(self.zc, now, records)",
+  "        for listener in self.listeners:\n            listener.async_update_records(self.zc, now, records)")
+V('c06-removes-list', 'C06', 'C06.DEDUP', RMF,
+  "        removes: Set[DNSRecord] = set()", "        removes: List[DNSRecord] = []",
+  more=[(RMF, "                removes.add(record)", "                removes.append(record)")])
+V('c06-floor-le', 'C06', 'C06.FLOORFLUSH', RMF,
+  "record_ttl < _DNS_PTR_MIN_TTL:", "record_ttl <= _DNS_PTR_MIN_TTL:")
+V('c06-floor-const', 'C06', 'C06.FLOORFLUSH', 'const.py',
+  "_DNS_PTR_MIN_TTL = _DNS_OTHER_TTL / 4", "_DNS_PTR_MIN_TTL = _DNS_OTHER_TTL / 5")
+V('c06-floor-zero-ttl', 'C06', 'C06.FLOORFLUSH', RMF,
+  "if record_ttl and record_type == _TYPE_PTR and record_ttl < _DNS_PTR_MIN_TTL:", "if record_type == _TYPE_PTR and record_ttl < _DNS_PTR_MIN_TTL:")
+V('c06-floor-resets-created', 'C06', 'C06.FLOORFLUSH', RMF,
+  "record.set_created_ttl(record.created, _DNS_PTR_MIN_TTL)", "record.set_created_ttl(now, _DNS_PTR_MIN_TTL)")
+V('c06-flush-ge', 'C06', 'C06.FLOORFLUSH', '_cache.py',
+  "if (now - created_double > _ONE_SECOND) and record not in answers_rrset:", "if (now - created_double >= _ONE_SECOND) and record not in answers_rrset:")
+V('c06-flush-ignores-datagram', 'C06', 'C06.FLOORFLUSH', '_cache.py',
+  "if (now - created_double > _ONE_SECOND) and record not in answers_rrset:", "if now - created_double > _ONE_SECOND:")
+V('c06-flush-immediate', 'C06', 'C06.FLOORFLUSH', '_cache.py',
+  "record.set_created_ttl(now, 1)", "record.set_created_ttl(now, 0)")
+V('c06-flush-all-records', 'C06', 'C06.FLOORFLUSH', RMF,
+  "            if record.unique:  # https://tools.ietf.org/html/rfc6762#section-10.2\n                unique_types.add(",
+  "            if True:\n                unique_types.add(")
+# twins
+V('c06-twin-len-tests', 'C06', 'C06.ORDER', RMF,
+  "        if updates:\n            self.async_updates(now, updates)", "        if len(updates) > 0:\n            self.async_updates(now, updates)", expect='silent')
+V('c06-twin-flip-compare', 'C06', 'C06.FLOORFLUSH', RMF,
+  "record_ttl < _DNS_PTR_MIN_TTL:", "_DNS_PTR_MIN_TTL > record_ttl:", expect='silent')
+V('c06-twin-list-copy', 'C06', 'C06.SNAPSHOT', RMF,
+  "        for listener in self.listeners.copy():\n            listener.async_update_records_complete()",
+  "        for listener in list(self.listeners):\n            listener.async_update_records_complete()", expect='silent')
+V('c06-twin-flush-demorgan', 'C06', 'C06.FLOORFLUSH', '_cache.py',
+  "if (now - created_double > _ONE_SECOND) and record not in answers_rrset:", "if not (now - created_double <= _ONE_SECOND or record in answers_rrset):", expect='silent')
+
+BR = '_services/browser.py'
+# ---------------------------------------------------------------- C04
+V('c04-removed-overwrites-added', 'C04', 'C04.PRECEDENCE', BR,
+  "                state_change is SERVICE_STATE_CHANGE_REMOVED\n                and self._pending_handlers.get(key) is not SERVICE_STATE_CHANGE_ADDED\n",
+  "                state_change is SERVICE_STATE_CHANGE_REMOVED\n")
+V('c04-updated-overwrites', 'C04', 'C04.PRECEDENCE', BR,
+  "or (state_change is SERVICE_STATE_CHANGE_UPDATED and key not in self._pending_handlers)",
+  "or (state_change is SERVICE_STATE_CHANGE_UPDATED)")
+V('c04-added-after-removed-dropped', 'C04', 'C04.PRECEDENCE', BR,
+  "            state_change is SERVICE_STATE_CHANGE_ADDED\n            or (",
+  "            (state_change is SERVICE_STATE_CHANGE_ADDED and key not in self._pending_handlers)\n            or (")
+V('c04-key-swapped', 'C04', 'C04.PRECEDENCE', BR,
+  "            self._pending_handlers[key] = state_change", "            self._pending_handlers[(type_, name)] = state_change")
+V('c04-added-on-refresh', 'C04', 'C04.CLASSIFY', BR,
+  "                    else:\n                        self.query_scheduler.reschedule_ptr_first_refresh(pointer)\n                continue",
+  "                    else:\n                        self._enqueue_callback(SERVICE_STATE_CHANGE_ADDED, type_, pointer.alias)\n                        self.query_scheduler.reschedule_ptr_first_refresh(pointer)\n                continue")
+V('c04-expired-new-ignored', 'C04', 'C04.CLASSIFY', BR,
+  "                    if old_record is None:\n                        self._enqueue_callback(SERVICE_STATE_CHANGE_ADDED",
+  "                    if old_record is None and not pointer.is_expired(now):\n                        self._enqueue_callback(SERVICE_STATE_CHANGE_ADDED")
+V('c04-removed-keeps-schedule', 'C04', 'C04.CLASSIFY', BR,
+  "                        self._enqueue_callback(SERVICE_STATE_CHANGE_REMOVED, type_, pointer.alias)\n                        self.query_scheduler.cancel_ptr_refresh(pointer)",
+  "                        self._enqueue_callback(SERVICE_STATE_CHANGE_REMOVED, type_, pointer.alias)")
+V('c04-fire-before-cache', 'C04', 'C04.AFTERCACHE', BR,
+  "                    if old_record is None:\n                        self._enqueue_callback(SERVICE_STATE_CHANGE_ADDED, type_, pointer.alias)\n",
+  "                    if old_record is None:\n                        self._fire_service_state_changed_event(((pointer.alias, type_), SERVICE_STATE_CHANGE_ADDED))\n")
+V('c04-flush-no-clear', 'C04', 'C04.FLUSH', BR,
+  "        for pending in self._pending_handlers.items():\n            self.queue.put(pending)\n        self._pending_handlers.clear()",
+  "        for pending in self._pending_handlers.items():\n            self.queue.put(pending)")
+V('c04-flush-clear-inside', 'C04', 'C04.FLUSH', BR,
+  "        for pending in self._pending_handlers.items():\n            self._fire_service_state_changed_event(pending)\n        self._pending_handlers.clear()",
+  "        for pending in list(self._pending_handlers.items()):\n            self._pending_handlers.clear()\n            self._fire_service_state_changed_event(pending)")
+# twins
+V('c04-twin-precedence-rewrite', 'C04', 'C04.PRECEDENCE', BR,
+  "        if (\n            state_change is SERVICE_STATE_CHANGE_ADDED\n            or (\n                state_change is SERVICE_STATE_CHANGE_REMOVED\n                and self._pending_handlers.get(key) is not SERVICE_STATE_CHANGE_ADDED\n            )\n            or (state_change is SERVICE_STATE_CHANGE_UPDATED and key not in self._pending_handlers)\n        ):\n            self._pending_handlers[key] = state_change",
+  "        current = self._pending_handlers.get(key)\n        if state_change is SERVICE_STATE_CHANGE_ADDED:\n            self._pending_handlers[key] = state_change\n            return\n        if state_change is SERVICE_STATE_CHANGE_REMOVED:\n            if current is not SERVICE_STATE_CHANGE_ADDED:\n                self._pending_handlers[key] = state_change\n            return\n        if current is None:\n            self._pending_handlers[key] = SERVICE_STATE_CHANGE_UPDATED", expect='silent')
+V('c04-twin-classify-reordered', 'C04', 'C04.CLASSIFY', BR,
+  "                    if old_record is None:\n                        self._enqueue_callback(SERVICE_STATE_CHANGE_ADDED, type_, pointer.alias)\n                        self.query_scheduler.reschedule_ptr_first_refresh(pointer)\n                    elif pointer.is_expired(now):\n                        self._enqueue_callback(SERVICE_STATE_CHANGE_REMOVED, type_, pointer.alias)\n                        self.query_scheduler.cancel_ptr_refresh(pointer)\n                    else:\n                        self.query_scheduler.reschedule_ptr_first_refresh(pointer)",
+  "                    if old_record is not None and pointer.is_expired(now):\n                        self.query_scheduler.cancel_ptr_refresh(pointer)\n                        self._enqueue_callback(SERVICE_STATE_CHANGE_REMOVED, type_, pointer.alias)\n                        continue\n                    if old_record is None:\n                        self._enqueue_callback(SERVICE_STATE_CHANGE_ADDED, type_, pointer.alias)\n                    self.query_scheduler.reschedule_ptr_first_refresh(pointer)", expect='silent')
